@@ -1,0 +1,20 @@
+//go:build verif
+
+// Machine-checked contracts for govc (see /verif/DESIGN.md). Comments only;
+// compiled only with the build tag "verif".
+
+package keyholder
+
+// C16: "verifies against the key set published on the management JWKS endpoint": the registry
+// publishes what every registered key holder publishes - each holder is asked exactly once, in
+// order, and its keys are appended as a whole (ghost log khk = KeyHolder.Keys).
+//@ iface (KeyHolder).Keys
+//@   props C16
+//@   logged khk
+
+//@ func (*registry).Keys
+//@   props C16
+//@   callsites append 1
+//@   assert at call append#1@7a5b4524.1: khk.n > old(khk.n) && callarg1 == khk.ret0[khk.n - 1]
+//@   loop 0 invariant idx + 1 <= len(old(r.keyHolders)) && khk.n == old(khk.n) + idx + 1 && forall j int :: 0 <= j && j <= idx ==> khk.arg0[old(khk.n) + j] == old(r.keyHolders[j])
+//@   ensures khk.n == old(khk.n) + len(old(r.keyHolders))
